@@ -13,13 +13,27 @@ import core  # noqa: E402
 def main():
     ap = argparse.ArgumentParser()
     ap.add_argument("prop")
-    ap.add_argument("--tier", default="quick", choices=["quick", "thorough"])
+    ap.add_argument("--tier", default=None, choices=["quick", "thorough"])
     ap.add_argument("--replay", default=None)
     a = ap.parse_args()
-    tier = os.environ.get("VERIF_TIER") or a.tier
+    # the command line wins; the environment only fills in what it leaves open
+    tier = a.tier or os.environ.get("VERIF_TIER") or "quick"
     if tier not in ("quick", "thorough"):
-        tier = a.tier
+        tier = "quick"
     seed = int(os.environ.get("VERIF_SEED", "0") or 0)
+    if a.replay:
+        # a replay file names the run that produced it (tier, seed): every choice of a run derives from these two, so
+        # re-running the check with them regenerates the same cases and reports the violation again if it still exists
+        import json
+        import re
+        try:
+            rf = json.load(open(a.replay))
+        except Exception:
+            rf = {}
+        m = re.search(r"-(quick|thorough)-seed(\d+)-", os.path.basename(a.replay))
+        tier = rf.get("tier") or (m.group(1) if m else tier)
+        seed = int(rf.get("seed", m.group(2) if m else seed))
+        print("replaying %s: tier %s, seed %d; recorded: %s" % (a.replay, tier, seed, str(rf.get("what"))[:300]), flush=True)
     (core.VERIF / "run").mkdir(exist_ok=True)
     if a.prop == "lint":
         bad = core.lint(None)
